@@ -179,7 +179,8 @@ Record cfail := mkCF {
 Inductive dop :=
 | DGet (slot : nat) (dig : option string) (f : gfail)
 | DClose (slot : nat) (f : cfail)
-| DWrite (slot : nat) (file : string).
+| DWrite (slot : nat) (file : string)
+| DReturn (slot : nat).  (* the executor that got the directory returned *)
 
 Definition listing := list (string * list string).
 
@@ -196,7 +197,9 @@ Inductive dout :=
 | DGot (name : string)  (* GetBuildDirectory succeeded; name of the subdirectory *)
 | DErr (code : N)       (* GetBuildDirectory failed with this gRPC code *)
 | DClosed (code : N)    (* Close returned (0 = nil) *)
-| DWrote (ok : bool).
+| DWrote (ok : bool)
+| DRet                  (* executor returned, its directory was closed *)
+| DLeaked.              (* harness only: executor returned without Close *)
 
 Definition has (n : string) (r : listing) : bool :=
   existsb (fun e => String.eqb (fst e) n) r.
@@ -280,6 +283,13 @@ Definition dstep (s : dstate) (o : dop) : dstate * dout * nat :=
     | Some n =>
       let '(r', ok) := add_file n file (d_root s) in
       (mkD r' (d_users s) (d_counter s) (d_slots s), DWrote ok, 0)
+    end
+  | DReturn k =>
+    (* LocalBuildExecutor.Execute/CheckReadiness return only after their
+       deferred Close; with the handle still open the event is not enabled *)
+    match slot_name (d_slots s) k with
+    | Some _ => (s, DSkip, 0)
+    | None => (s, DRet, 0)
     end
   end.
 
